@@ -14,7 +14,8 @@ EXPLANATION = (
     "passes evaluate with eval_const and convert with CastVariant::cast when the name carries a suffix; "
     "(R4) constant lookup consults the current scope before the global scope at every two-level "
     "lookup, so the folder and the expression converter resolve a shadowing CONST alike.  (R6) where the error of evaluating or converting a constant is re-wrapped, the wrapper looks at the error it receives (the kind - Overflow, Division by zero - reaches the user unchanged)."
-    " (R7) the parser's arithmetic on literals (negating a literal's payload, and the parser functions built on it) is called from the parser crate only.")
+    " (R7) the parser's arithmetic on literals (negating a literal's payload, and the parser functions built on it) is called from the parser crate only."
+    " (R8 = C06.R1) the static type of an operator application is the tag of the VM's result.")
 NOT_DECIDED = ["equality of the folded value with the run-time value (value-level)"]
 
 ERR_NAMES = {"LinterError(NotFiniteNumber)": "NotFiniteNumber"}
